@@ -92,7 +92,7 @@ extern void (*lex_progs[])(void); extern int n_lex_progs;
 
 /* every ordered pair (filter F, thrown T) of the built-in exception kinds, plus two kinds defined here: the inner handler
    runs exactly when F and T are the same kind, otherwise the enclosing catch-all gets T; the bound object is T */
-static var UserErrA, UserErrB, TryKindA, TryKindB;
+static var UserErrA, UserErrB, UserErr, IOErrorRetry, IOKind, TryKindA, TryKindB;   /* names in prefix relation with each other and with a built-in kind */
 /* exception kinds that are objects of a user type whose comparison itself uses a try block (one that completes normally):
    a try is then entered while an exception is being matched against the filters */
 struct TryKind { int64_t id; };
@@ -103,13 +103,13 @@ static int TryKind_Cmp(var self, var obj) {
   return ((struct TryKind*)self)->id == ((struct TryKind*)obj)->id ? 0 : (guarded == 1 ? 1 : -1);
 }
 var TryKind = Cello(TryKind, Instance(Cmp, TryKind_Cmp));
-#define NK 20
+#define NK 23
 static void run_pairs(void) {
   var K[NK] = { TypeError, ValueError, ClassError, IndexOutOfBoundsError, KeyError, OutOfMemoryError, IOError, FormatError, BusyError,
                 ResourceError, ProgramAbortedError, DivisionByZeroError, IllegalInstructionError, ProgramInterruptedError,
-                SegmentationError, ProgramTerminationError, UserErrA, UserErrB, TryKindA, TryKindB };
+                SegmentationError, ProgramTerminationError, UserErrA, UserErrB, UserErr, IOErrorRetry, IOKind, TryKindA, TryKindB };
   for (int fi = 0; fi < NK; fi++) for (int ti = 0; ti < NK; ti++) {
-    if ((fi >= 18) != (ti >= 18)) continue;      /* kinds of one sort per program: type objects, or objects of the user type */
+    if ((fi >= 21) != (ti >= 21)) continue;      /* kinds of one sort per program: type objects, or objects of the user type */
     volatile int inner = 0, outer = 0, bound = -1, after = 0; volatile long d0 = depth_now();
     try {
       try { throw(K[ti], "pair %i %i", $I(fi), $I(ti)); } catch (e in K[fi]) { inner++; for (int k = 0; k < NK; k++) if (e == K[k]) bound = k; }
@@ -123,6 +123,7 @@ static void run_pairs(void) {
 int main(int argc, char** argv) {
   if (argc < 2) { fprintf(stderr, "usage: h_exc script [out]\n"); return 9; }
   UserErrA = new_root(Type, $S("UserErrA"), $I(0)); UserErrB = new_root(Type, $S("UserErrB"), $I(0));
+  UserErr = new_root(Type, $S("UserErr"), $I(0)); IOErrorRetry = new_root(Type, $S("IOErrorRetry"), $I(0)); IOKind = new_root(Type, $S("IO"), $I(0));
   TryKindA = new_root(TryKind); ((struct TryKind*)TryKindA)->id = 1; TryKindB = new_root(TryKind); ((struct TryKind*)TryKindB)->id = 2;
   FILE* f = fopen(argv[1], "r"); if (!f) { perror(argv[1]); return 9; }
   if (argc > 2) { ev_fd = open(argv[2], O_WRONLY | O_CREAT | O_TRUNC | O_APPEND, 0644); if (ev_fd < 0) { perror(argv[2]); return 9; } }
